@@ -132,6 +132,86 @@ func c07ExecOn(c c07Case, live *saml2.SAMLServiceProvider) (keys []string, detai
 	return nil, detail, "twin-equal/rejected"
 }
 
+// ---- two encrypted assertions in one Response: each is bound to the SP on its own ----
+
+// c07Pair: both assertions are encrypted under ONE session key (as an IdP encrypting a whole
+// Response would), each with its own EncryptedKey placement and recipient certificate.
+type c07Pair struct {
+	Pair      bool      `json:"pair"`
+	Placement string    `json:"placement"` // response-signed | assertion-signed
+	Det       [2]bool   `json:"detached"`
+	Recip     [2]string `json:"recipient_cert"` // "", "KS", "KX"
+	Setter    bool      `json:"key_through_setter,omitempty"`
+}
+
+func c07PairSpec(c c07Pair, encrypted bool) idp.ResponseSpec {
+	r := idp.DefaultResponse(2)
+	uniq(&r, "c07p")
+	r.Assertions[1].NameID = "second-subject@example.com"
+	for i := range r.Assertions {
+		a := &r.Assertions[i]
+		if c.Placement != "response-signed" {
+			a.Sign = idp.SignSpec{Key: "K2"}
+		}
+		if encrypted {
+			a.Encrypt = &idp.EncSpec{RecipCert: c.Recip[i], SessionKey: "one-key-for-the-response"}
+			if c.Det[i] {
+				a.Encrypt.Placement = "detached"
+			}
+		}
+	}
+	if c.Placement == "response-signed" {
+		r.Sign = idp.SignSpec{Key: "K2"}
+	}
+	return r
+}
+
+func c07PairExec(c c07Pair) (keys []string, detail, class string) {
+	conf := world.SPConf{Store: []string{"K2"}}
+	if c.Setter {
+		conf.EncField, conf.EncSetter = "-", "KS"
+	}
+	resp, r := validateResponse(conf.Build(), idp.RenderResponse(c07PairSpec(c, true)))
+	tresp, tr := validateResponse(conf.Build(), idp.RenderResponse(c07PairSpec(c, false)))
+	detail = fmt.Sprintf("case=%+v | encrypted: accepted=%v err=%q panic=%q | plaintext twin: accepted=%v err=%q", c, r.Accepted(), r.Err.Text, r.Panic, tr.Accepted(), tr.Err.Text)
+	if r.Panic != "" {
+		return []string{"C07/partB/panic"}, detail, "panic"
+	}
+	for i, rc := range c.Recip {
+		if rc == "KX" {
+			if r.Accepted() {
+				return []string{fmt.Sprintf("C07/decryption-not-refused/recipient-certificate-differs-from-SP/assertion-%d-of-2", i+1)}, detail, "pair/must-refuse/ACCEPTED"
+			}
+			return nil, detail, "pair/must-refuse/refused"
+		}
+	}
+	if !tr.Accepted() {
+		return nil, "harness: plaintext twin rejected: " + detail, "harness-error"
+	}
+	if !r.Accepted() {
+		return []string{"C07/encrypted-differs-from-plaintext-twin/accepted=false-twin=true"}, detail, "pair/twin-DIFFERS"
+	}
+	if oracle.FromResponse(resp).Key() != oracle.FromResponse(tresp).Key() {
+		return []string{"C07/encrypted-data-differs-from-plaintext-twin"}, detail, "pair/twin-DIFFERS"
+	}
+	return nil, detail, "pair/twin-equal/accepted"
+}
+
+func c07Pairs() []c07Pair {
+	var out []c07Pair
+	mc.Enumerate(-1, nil, func(ch *mc.Chooser) {
+		c := c07Pair{Pair: true}
+		c.Placement = []string{"response-signed", "assertion-signed"}[ch.Choose("placement", 2)]
+		for i := 0; i < 2; i++ {
+			c.Det[i] = ch.Bool("detached")
+			c.Recip[i] = []string{"", "KS", "KX"}[ch.Choose("recip", 3)]
+		}
+		c.Setter = ch.Bool("setter")
+		out = append(out, c)
+	})
+	return out
+}
+
 type c07History struct {
 	History []c07Case `json:"history"`
 }
@@ -143,6 +223,11 @@ func c07Replay(raw json.RawMessage) ([]string, string) {
 	json.Unmarshal(raw, &probe)
 	if probe.Input != "" {
 		return attReplay("C07")(raw)
+	}
+	var pr c07Pair
+	if json.Unmarshal(raw, &pr) == nil && pr.Pair {
+		k, d, _ := c07PairExec(pr)
+		return k, d
 	}
 	var h c07History
 	if json.Unmarshal(raw, &h) == nil && len(h.History) > 0 {
@@ -166,7 +251,7 @@ func c07Replay(raw json.RawMessage) ([]string, string) {
 }
 
 func c07Run(r *mc.Run) {
-	r.Rule = "Part A: the attacker BFS and tree enumeration of C01 (encrypt operator over 8 algorithm/recipient variants at every assertion; X(G)/X(E) tree labels), judged by the pool and direct-child invariants. Part B: full product placement(2) x ValidateEncryptionCert(2) x clock position(11) x SP certificate state(3) x recipient certificate(4) x data algorithm(5) x EncryptedKey placement(2: inline, detached) x SP key API(2: SPKeyStore field, SetSPKeyStore). non-trivial = decryption was attempted (an EncryptedAssertion reached the decrypt step) or the state was accepted; distinct = distinct (input, configuration)"
+	r.Rule = "Part A: the attacker BFS and tree enumeration of C01 (encrypt operator over 8 algorithm/recipient variants at every assertion; X(G)/X(E) tree labels), judged by the pool and direct-child invariants. Part B: full product placement(2) x ValidateEncryptionCert(2) x clock position(11) x SP certificate state(3) x recipient certificate(4) x data algorithm(5) x EncryptedKey placement(2: inline, detached) x SP key API(3: SPKeyStore field as TLS or custom key store type, SetSPKeyStore); plus Responses with two assertions encrypted under one session key, full product signing placement(2) x per assertion (EncryptedKey placement(2) x recipient certificate(3: none, the SP's, a foreign one)) x key API(2): refused iff either names a foreign certificate, else equal to the plaintext twin. non-trivial = decryption was attempted (an EncryptedAssertion reached the decrypt step) or the state was accepted; distinct = distinct (input, configuration)"
 	r.Assume("RSA/ECDSA unforgeable", "the harness's own XML-Enc encryptor/decryptor (idp/enc.go)")
 	var cases []c07Case
 	n, _ := mc.Enumerate(-1, r.Expired, func(ch *mc.Chooser) {
@@ -198,6 +283,22 @@ func c07Run(r *mc.Run) {
 		}
 		for _, k := range keys {
 			r.Violation(k, detail, c)
+		}
+	})
+	pairs := c07Pairs()
+	r.Set("partB_two_encrypted_assertions", len(pairs))
+	r.Par(len(pairs), func(i int) {
+		keys, detail, class := c07PairExec(pairs[i])
+		r.Eval(2)
+		r.State(1)
+		r.Transition(2)
+		r.Bucket("partB/" + class)
+		r.Nontrivial(fmt.Sprintf("%+v", pairs[i]))
+		if i%37 == 0 {
+			r.Sample(map[string]interface{}{"case": pairs[i], "observed": detail})
+		}
+		for _, k := range keys {
+			r.Violation(k, detail, pairs[i])
 		}
 	})
 	// histories: for each (placement, recipient, algorithm) one live instance walks every
